@@ -802,6 +802,7 @@ class Exec(Executor):
     def call_contract(self, k: Contract, fi: FuncInfo, recv: Any, args: list[Any], kwargs: dict[str, Any], st: State,
                       node: ast.AST) -> list[Res]:
         self.stats["contract_calls"] += 1
+        self.contracts_used.add(k.key)
         if k.assumed:
             self.assumed_contracts_used.add(k.key)
         env, _ = self.bind_params(fi, recv, args, kwargs, st, node)
